@@ -108,7 +108,7 @@ def query_check(run, gens, own_clauses, rule, assumptions, ops=False, mc=None, r
         raise Infra("no scenarios generated")
     chunks = max(1, min(vlib.NCPU // 2, len(scenarios) // 400))
     traces = vlib.replay(run, binary, "query", scenarios, "q", ops=ops, chunks=chunks)
-    viols, stats = vlib.validate(run, "QueryTrace", traces, "q")
+    viols, stats = vlib.validate(run, "QueryTrace", traces, "q", extra_constants=" WFOnly = FALSE")
     st = sum_stats(stats)
     ids = {v[0] for v in viols}
     hdr = headers_of(traces, ids)
@@ -274,7 +274,7 @@ def c19(run):
     # Gen_WF's scenarios and every fifth of the others
     dscs = [dict(s, id=s["id"] + "-dist") for i, s in enumerate(scs) if "-wf-" in s["id"] or i % 5 == 0]
     traces += vlib.replay(run, binary, "querydist", dscs, "qd", chunks=max(1, min(vlib.NCPU // 2, len(dscs) // 400)))
-    viols, stats = vlib.validate(run, "QueryTrace", traces, "q")
+    viols, stats = vlib.validate(run, "QueryTrace", traces, "q", extra_constants=" WFOnly = TRUE")
     st = sum_stats(stats)
     hdr = headers_of(traces, {v[0] for v in viols})
     attribute(run, viols, hdr, lambda clause, fam: ["C19"] if clause in WF else (["C01-C06"] if clause in RESULT else (["C19", "C13"] if clause == "ProcessDead" else [])))
@@ -582,7 +582,7 @@ def extreme_params(run, binary):
             s1["cfg"] = dict(s0.get("cfg") or {}, **v)
             aw.append(s1)
     traces += vlib.replay(run, binary, "apiwin", aw, "aw", chunks=1, stall=30)
-    viols, stats = vlib.validate(run, "QueryTrace", traces, "xp")
+    viols, stats = vlib.validate(run, "QueryTrace", traces, "xp", extra_constants=" WFOnly = FALSE")
     hdr = headers_of(traces, {v[0] for v in viols})
 
     def cp(clause, fam):
